@@ -69,6 +69,104 @@ def projectable(ctx):
     ctx.decide('is_projectable/wiring: all sub-expressions satisfy the node predicate', [z3.Not(z3.BoolVal(bool(good)))], ex=ex2)
 
 
+PC_ENTS = [{'uid': {'type': 'User', 'id': 'alice'}, 'attrs': {'level': 3}, 'parents': [{'type': 'Group', 'id': 'admins'}], 'tags': {'vip': True}}, {'uid': {'type': 'User', 'id': 'bob'}, 'attrs': {'level': 1}, 'parents': []},
+           {'uid': {'type': 'Group', 'id': 'admins'}, 'attrs': {}, 'parents': []}, {'uid': {'type': 'Doc', 'id': 'd1'}, 'attrs': {'owner': {'__entity': {'type': 'User', 'id': 'alice'}}}, 'parents': [{'type': 'Group', 'id': 'admins'}], 'tags': {'confidential': True}}]
+PC_TYPED = ['permit(principal in Group::"admins", action, resource);', 'permit(principal, action, resource) when { principal in [Group::"admins"] };', 'permit(principal == User::"alice", action, resource);', 'permit(principal == Group::"admins", action, resource);',
+            'permit(principal, action, resource) unless { principal in Group::"admins" };', 'permit(principal, action, resource); forbid(principal in Group::"admins", action, resource);', 'permit(principal is User, action, resource);',
+            'permit(principal, action, resource) when { resource.owner == principal };', 'permit(principal, action, resource) when { principal.hasTag("vip") };', 'permit(principal, action, resource) when { principal has level && principal.level > 2 };',
+            'permit(principal, action, resource); permit(principal, action, resource) when { principal == User::"alice" };', 'forbid(principal, action, resource); permit(principal, action, resource) when { principal == User::"alice" };',
+            'permit(principal, action, resource) when { resource in Group::"admins" && principal in Group::"admins" };']
+PC_STORE = ['permit(principal, action, resource); forbid(principal, action, resource) when { resource.hasTag("confidential") };', 'permit(principal, action, resource) when { resource.hasTag("confidential") && resource.getTag("confidential") };',
+            'permit(principal, action, resource) when { resource has owner };', 'permit(principal, action, resource) when { resource in Group::"admins" };', 'permit(principal, action, resource) unless { principal in Group::"admins" };',
+            'permit(principal, action, resource) when { principal.hasTag("vip") || resource has owner };', 'forbid(principal, action, resource) unless { resource.hasTag("public") }; permit(principal, action, resource);']
+
+
+def completions_battery(ctx, name, role, why):
+    """a definite partial decision is the decision of every completion; re-authorizing with the completion gives what authorizing from scratch gives - for an unknown
+    principal of a known type over the full store, and for a known request over a partial store that knows only some entities"""
+    cache = ctx.__dict__.setdefault('_c13_completions', {})
+    if 'r' not in cache:
+        cache['r'] = None
+        n = 0
+        cases = [dict(op='partial_completions', policies=p, entities=PC_ENTS, principal_type='User', completions=['User::"alice"', 'User::"bob"']) for p in PC_TYPED]
+        for known in ([], [PC_ENTS[0]], [PC_ENTS[3]], PC_ENTS[:3]):
+            cases += [dict(op='partial_completions', policies=p, entities=PC_ENTS, known=known, principal='User::"alice"', completions=['User::"alice"']) for p in PC_STORE]
+        for q in cases:
+            a = ctx.native.ask(q)
+            if 'partial' not in a:
+                return ctx.mismatch(name, f'partial_completions probe: {str(a)[:300]}')
+            n += 1
+            d = a['partial']['decision']
+            for c in a['completions']:
+                what = 'an unknown principal of type User' if 'principal_type' in q else f'a partial store knowing {[e["uid"]["id"] for e in q["known"]]}'
+                if d is not None and c['scratch']['decision'] != d and cache['r'] is None:
+                    cache['r'] = (f'`{q["policies"]}` with {what}: partial authorization decides {d}, the completion {c["principal"]} over the full store decides {c["scratch"]["decision"]}', q)
+                re_ = c.get('reauthorized')
+                if re_ and cache['r'] is None:
+                    if 'error' in re_ or re_.get('decision') != c['scratch']['decision'] or (re_.get('concretized') or {}).get('reasons') != c['scratch']['reasons']:
+                        cache['r'] = (f'`{q["policies"]}` with {what}: re-authorizing with principal := {c["principal"]} gives {re_}, authorizing from scratch {c["scratch"]}', q)
+        cache['n'] = n
+    if cache['r']:
+        return ctx.violation(name, role, f'{why}; natively: {cache["r"][0]}', cache['r'][1])
+    return ('unreplayed', f'{why}; but in the {cache.get("n")} partial authorizations of the completion battery every definite decision is the decision of every completion and re-authorization agrees with authorization from scratch')
+
+
+def reauthorize_route(ctx):
+    """PartialResponse::reauthorize always re-evaluates: the answer is is_authorized_core_internal on the policy set of ALL residual policies, the request concretized
+    with the mapping, and an evaluator over that request with the mapping as its unknowns - whatever the partial response had already decided"""
+    P = ctx.prog('core')
+    f = P.method('authorizer/partial_response.rs', 'reauthorize', nargs=4)
+    ctx.use(f)
+    ex = ctx.new_exec('core')
+    ex.havoc_unknown = True
+    PSOK, RQOK = z3.Bool('all_residual_policies_succeeds'), z3.Bool('concretize_request_succeeds')
+    ps, rq, ev, ans = Opaque('ast::policy_set::PolicySet', 'all residual policies'), Opaque('ast::request::Request', 'the concretized request'), Opaque('evaluator::Evaluator', 'the evaluator'), Opaque('authorizer::partial_response::PartialResponse', 'the new response')
+    gid = lambda ex_, st, v: getattr(_res(ex_, st, v), 'id', None)
+
+    def log(st, *x):
+        st.notes['log'] = st.notes.get('log', []) + [x]
+    ex.stub(r'PartialResponse::all_residual_policies$', lambda ex_, st, c, A: [([PSOK], ok(ps)), ([z3.Not(PSOK)], err(Opaque('PolicySetError', 'bad policy set')))], 'all_residual_policies: the policy set or an error (free)')
+    ex.stub(r'PartialResponse::concretize_request$', lambda ex_, st, c, A: [([RQOK], ok(rq)), ([z3.Not(RQOK)], err(Opaque('ConcretizationError', 'bad mapping')))], 'concretize_request(mapping): the request or an error (free)')
+    ex.stub(r'Request as Clone>::clone$', lambda ex_, st, c, A: _res(ex_, st, A[0]), 'Request::clone')
+
+    def ev_new(ex_, st, c, A):
+        log(st, 'evaluator', gid(ex_, st, A[0]))
+        return Agg('struct', '~ev', None, [Opaque('x', 'plain evaluator')])
+    ex.stub(r'Evaluator::<.*>::new$|Evaluator::new$', ev_new, 'Evaluator::new(request, entities, extensions): logged')
+
+    def mapper(ex_, st, c, A):
+        log(st, 'with_unknowns_mapper')
+        return ev
+    ex.stub(r'Evaluator::<.*>::with_unknowns_mapper$|Evaluator::with_unknowns_mapper$', mapper, 'with_unknowns_mapper(mapping): the evaluator used')
+
+    def core(ex_, st, c, A):
+        log(st, 'authorize', gid(ex_, st, A[1]), gid(ex_, st, A[2]), gid(ex_, st, A[3]))
+        return ans
+    ex.stub(r'Authorizer::is_authorized_core_internal$', core, 'is_authorized_core_internal(evaluator, request, policy set): logged')
+    from ..models import ok as _ok
+    heap = {'ME': Opaque('authorizer::partial_response::PartialResponse', 'self'), 'MAP': Opaque('HashMap<SmolStr, Value>', 'mapping'), 'AUTH': Opaque('authorizer::Authorizer', 'authorizer'), 'ES': Opaque('entities::Entities', 'entities')}
+    outs = ex.run(f, [Ref(0, ('local', 'ME')), Ref(0, ('local', 'MAP')), Ref(0, ('local', 'AUTH')), Ref(0, ('local', 'ES'))], heap=heap)
+    ctx.absorb(ex)
+    nm = 'PartialResponse::reauthorize'
+    ctx.panic_summary(nm, outs, ex)
+    rets = [o for o in outs if o.kind == 'ret']
+    bad = []
+    for o in rets:
+        pc = z3.And(o.pc) if o.pc else z3.BoolVal(True)
+        v = _res(ex, o.st, o.val)
+        lg = o.st.notes.get('log', [])
+        if not (isinstance(v, Agg) and v.variant in ('Ok', 'Err')):
+            raise NotEncoded(f'{nm}: result {v!r}')
+        if v.variant == 'Ok':
+            good = lg == [('evaluator', rq.id), ('with_unknowns_mapper',), ('authorize', ev.id, rq.id, ps.id)] and gid(ex, o.st, v.fields[0]) == ans.id
+            bad.append(z3.And(pc, z3.Not(z3.And(z3.BoolVal(good), PSOK, RQOK))))
+        else:
+            bad.append(z3.And(pc, PSOK, RQOK))
+    ctx.decide(f'{nm}/re-evaluates all residual policies on the concretized request with the mapping, whatever was already decided', [z3.Or(bad) if bad else z3.BoolVal(True)], ex=ex, sample={'paths': len(rets)},
+               on_sat=lambda m: completions_battery(ctx, nm, 'partial_response.rs: PartialResponse::reauthorize', 're-authorization does not re-evaluate the residual policies'))
+    ctx.decide(f'{nm}/witness', [PSOK, RQOK, z3.Or([z3.And(o.pc) if o.pc else z3.BoolVal(True) for o in rets] or [z3.BoolVal(False)])], expect='sat', ex=ex)
+
+
 def short_circuits(ctx):
     """typed unknowns: `==` between an entity literal and an unknown of a declared entity type (or two typed unknowns) is decided as false only when
     the types differ; everything else stays undecided (None).  Sound because a substitution must respect the annotation (unknown_to_partialvalue)."""
@@ -165,7 +263,10 @@ def short_circuits(ctx):
                 got = native_outcome(ctx, text)
                 if got[0] != 'residual':
                     return ctx.violation(meth, f'evaluator.rs: {meth}', f'`{text}` (untyped unknown) is decided as {got}', {'op': 'peval', 'expr': text})
-                return ctx.mismatch(meth, f'abstract counterexample, but `{text}` stays residual')
+                r = completions_battery(ctx, meth, f'evaluator.rs: {meth}', 'a comparison with a typed unknown is decided although completions disagree')
+                if r and r[0] == 'violation':
+                    return r
+                return ctx.mismatch(meth, f'abstract counterexample, but `{text}` stays residual and the completion battery agrees')
             ctx.decide(name, o.pc + [z3.Not(claim)], ex=ex, on_sat=on_sat, sample={'path_condition': [str(c)[:70] for c in o.pc][:6], 'returns': repr(r)[:80]} if i < 2 else None)
         ctx.decide(f'{meth}/witness', [z3.Or([z3.And(o.pc) if o.pc else z3.BoolVal(True) for o in outs if o.kind == 'ret'])], expect='sat', ex=ex)
 
@@ -219,4 +320,4 @@ def store_mode(ctx):
 
 
 def families(ctx):
-    return [('is_projectable', lambda: projectable(ctx)), ('short_circuits', lambda: short_circuits(ctx)), ('store_mode', lambda: store_mode(ctx))]
+    return [('is_projectable', lambda: projectable(ctx)), ('short_circuits', lambda: short_circuits(ctx)), ('store_mode', lambda: store_mode(ctx)), ('reauthorize', lambda: reauthorize_route(ctx))]
